@@ -585,7 +585,7 @@ void sign_casts(ivec const &v)
 
 // ---------------------------------------------------------------- matrices
 template <sz R, sz C>
-void matrix_same_shape(char const *grp, ivec const &v)
+void matrix_sum(char const *grp, ivec const &v)
 {
   auto const a(mk_mat<R, C>(v, 0));
   auto const b(mk_mat<R, C>(v, R * C));
@@ -602,12 +602,33 @@ void matrix_same_shape(char const *grp, ivec const &v)
     auto const res(a - b);
     r.k("r", mj_(res)).end();
   }
+}
+
+template <sz R, sz C>
+void matrix_compare(char const *grp, ivec const &v)
+{
+  auto const a(mk_mat<R, C>(v, 0));
+  auto const b(mk_mat<R, C>(v, R * C));
+  std::string const aj = vals_mat(v, 0, R, C), bj = vals_mat(v, R * C, R, C);
   {
     Rec r("meq");
     r.ks("g", grp).k("a", aj).k("b", bj).begin();
     bool const res = a == b;
     r.kb("r", res).end();
   }
+  {
+    Rec r("mne");
+    r.ks("g", grp).k("a", aj).k("b", bj).begin();
+    bool const res = a != b;
+    r.kb("r", res).end();
+  }
+}
+
+template <sz R, sz C>
+void matrix_same_shape(char const *grp, ivec const &v)
+{
+  matrix_sum<R, C>(grp, v);
+  matrix_compare<R, C>(grp, v);
 }
 
 template <sz R, sz C>
@@ -663,12 +684,6 @@ void matrix_unary(char const *grp, ivec const &v, int const k)
   auto const a(mk_mat<R, C>(v, 0));
   std::string const aj = vals_mat(v, 0, R, C);
   {
-    Rec r("transpose");
-    r.ks("g", grp).k("a", aj).begin();
-    auto const res(fm::matrix::transpose(a));
-    r.k("r", mj_(res)).end();
-  }
-  {
     Rec r("mscale");
     r.ks("g", grp).k("a", aj).ki("k", k).begin();
     auto const res(a * k);
@@ -701,6 +716,19 @@ void matrix_unary(char const *grp, ivec const &v, int const k)
     r.ks("g", grp).ks("st", "view").k("a", aj).k("v", vals_vec(v, R * C, C)).begin();
     auto const res(a * other.get_unsafe(0));
     r.k("r", vj_(res)).end();
+  }
+}
+
+template <sz R, sz C>
+void matrix_access(char const *grp, ivec const &v)
+{
+  auto const a(mk_mat<R, C>(v, 0));
+  std::string const aj = vals_mat(v, 0, R, C);
+  {
+    Rec r("transpose");
+    r.ks("g", grp).k("a", aj).begin();
+    auto const res(fm::matrix::transpose(a));
+    r.k("r", mj_(res)).end();
   }
   {
     Rec r("mstructure_cast");
@@ -836,22 +864,22 @@ void part_pairs()
       ivec v(a);
       ivec const b(mat2_of(cb));
       v.insert(v.end(), b.begin(), b.end());
-      matrix_same_shape<2, 2>("2x2", v);
+      matrix_sum<2, 2>("2x2", v);
       matrix_product<2, 2, 2>("2x2", v);
+      if (ca == cb || (ca + cb) % 8U == 0U) matrix_compare<2, 2>("2x2", v);
       if ((ca + cb) % 16U == 0U) matrix_same_shape_more<2, 2>("2x2", v);
     }
     // singles: every scalar -2..3, every vector over {-1,0,1,2}^2
-    for (int k = -2; k <= 3; ++k)
-      for (int x = -1; x <= 2; ++x)
-        for (int y = -1; y <= 2; ++y)
-        {
-          if (k != 2 && (x + y + k) % 3 != 0) continue;
-          ivec v(a);
-          v.push_back(x);
-          v.push_back(y);
-          matrix_unary<2, 2>("2x2", v, k);
-        }
+    matrix_access<2, 2>("2x2", a);
     matrix_square<2>("2x2", a);
+    for (int x = -1; x <= 2; ++x)
+      for (int y = -1; y <= 2; ++y)
+      {
+        ivec v(a);
+        v.push_back(x);
+        v.push_back(y);
+        matrix_unary<2, 2>("2x2", v, (x + 4 * y + static_cast<int>(ca)) % 6 - 2);
+      }
   }
 }
 
@@ -861,7 +889,7 @@ void part_matrices(vj::Rng &rng, bool const thorough)
   identity_case<2>();
   identity_case<3>();
   identity_case<4>();
-  unsigned const n = thorough ? 20000U : 1500U;
+  unsigned const n = thorough ? 8000U : 600U;
   for (unsigned i = 0; i < n; ++i)
   {
     int const k = static_cast<int>(rng.range(-9, 9));
@@ -871,6 +899,7 @@ void part_matrices(vj::Rng &rng, bool const thorough)
       matrix_same_shape<3, 3>("3x3", v);
       matrix_product<3, 3, 3>("3x3", v);
       matrix_unary<3, 3>("3x3", v, k);
+      matrix_access<3, 3>("3x3", v);
       matrix_square<3>("3x3", v);
       if (i % 8U == 0U) matrix_same_shape_more<3, 3>("3x3", v);
     }
@@ -879,6 +908,7 @@ void part_matrices(vj::Rng &rng, bool const thorough)
       matrix_same_shape<4, 4>("4x4", v);
       matrix_product<4, 4, 4>("4x4", v);
       matrix_unary<4, 4>("4x4", v, k);
+      matrix_access<4, 4>("4x4", v);
       matrix_square<4>("4x4", v);
       if (i % 8U == 0U) matrix_same_shape_more<4, 4>("4x4", v);
     }
@@ -895,10 +925,15 @@ void part_matrices(vj::Rng &rng, bool const thorough)
       matrix_product<1, 4, 1>("1x4*4x1", v);
       matrix_product<4, 2, 3>("4x2*2x3", v);
       matrix_unary<2, 3>("2x3", v, k);
+      matrix_access<2, 3>("2x3", v);
       matrix_unary<3, 2>("3x2", v, k);
+      matrix_access<3, 2>("3x2", v);
       matrix_unary<1, 4>("1x4", v, k);
+      matrix_access<1, 4>("1x4", v);
       matrix_unary<4, 1>("4x1", v, k);
+      matrix_access<4, 1>("4x1", v);
       matrix_unary<1, 1>("1x1", v, k);
+      matrix_access<1, 1>("1x1", v);
       matrix_same_shape<2, 3>("2x3", v);
       matrix_same_shape<4, 1>("4x1", v);
       matrix_square<1>("1x1", v);
@@ -948,7 +983,7 @@ void part_vectors(vj::Rng &rng, bool const thorough)
       vector_builders<3>(x, x - 1, c1);
       vector_builders<4>(x, 2 * x, c1);
     }
-  unsigned const n = thorough ? 20000U : 1500U;
+  unsigned const n = thorough ? 5000U : 400U;
   for (unsigned i = 0; i < n; ++i)
   {
     int const k = static_cast<int>(rng.range(-9, 9));
